@@ -359,6 +359,8 @@ func (in *Inst) Run() {
 	if c.APICalls {
 		in.postAPI()
 	}
+	// linger: timers the library left armed fire now (a callback that then blocks forever is a leaked goroutine)
+	vs.SleepIdle(2 * time.Second)
 	in.O.Finished = true
 }
 
